@@ -15,7 +15,7 @@ HIGHLIGHTS = {
     'C02': "partitions (`sliceList_partition`, `ompParts_partition`, 32-bit bounds `ompParts_no_wrap`), `footprint_disjoint` / `micro_steps_commute`, `schedule_independent_threading/_openmp` for every valid schedule, `every_interleaving_is_valid` and its converse, the work-queue protocol (`queue_exactly_once`, bounded, progress, failing calls) and **`protocol_run_interleaves` / `threading_protocol_schedule_independent`**: every complete non-failing run of the refined protocol IS an interleaving of the part programs, each exactly once, hence yields the specification.",
     'C03': "`learn_append`, `chain_eq_single`, `dict_continue`, **`ndl_continue` / `ndl_call_continue`**, `ndl_chain_two` (restated: the earlier version was vacuous), hand-over lemmas, and for chains of ANY length with a different learner per part **`chain_any_length`**, `chain_any_length_from`, **`chain_eq_single_call`**, `chain_split_irrelevant` (model `chainRun` over `ndlCall`; every ndl part non-empty, `chain_empty_ndl_part_raises` otherwise). Widrow–Hoff chains: C08.",
     'C04': "`chunks_concat`, `writeEvents_window` (all policies), `conversion_files` (= `makeChunks_ok`), `name_key_roundtrip`, `sort_is_numeric`, `count_any_order`, **`submit_loop_terminates`** (every delay oracle, exact multiples), `submit_loop_diverges_on_multiple_old_rule` (F1), `chunk_size_overflow`, `learn_chunk_independent`.",
-    'C05': "`conversion_fault_raises` (every completion order), `worker_fault_raises`, `dict_fault_raises`, and at learner level `ndl_dup_raises`, `ndl_overflow_raises`, `ndl_empty_raises`, `wh_dup_raises_*`, `wh_missing_vector_raises_*`, with the failing-job oracle instantiated from the file (`failingJob_iff`, `jobResult_eq_writeEvents`, `conversion_dup_raises`).",
+    'C05': "`conversion_fault_raises` (every completion order), `worker_fault_raises`, `dict_fault_raises`, and at learner level `ndl_dup_raises`, `ndl_overflow_raises`, `ndl_empty_raises`, `wh_dup_raises_*`, `wh_missing_vector_raises_*`, with the failing-job oracle instantiated from the file (`failing_job_iff`, `job_result_is_write_events`, `conversion_dup_raises`).",
     'C06': "`magic_agree` / `version_agree` on regenerated constants, `decode_encode`, `kernel_reads_what_py_reads` / `kernel_rejects_what_py_rejects` (restated: truncation is outside), `written_chunks_are_complete`, `write_read_window` / `write_window_overflow`, `kernel_buffer_never_overrun`, `flatIndex_exact`, `bad_header_rejected(_b2b)`, `good_chunks_consumed`, `empty_file_list_raises`.",
     'C07': "`splitOn_joinWith`, `parse_render(_slice_with)` (for every integer-literal parser, `1 ≤ step`; `step_zero_raises`), `freq_expand_with` / `freq_error_with`, `renderFileWith_*` (columns=, delimiter=, legacy header), `forms_agree`, `literals_match_source`.",
     'C08': "kernels = delta rule on their own row, `wh_schedule_independent`, **`wh_{r2b,r2r,b2r}_end_to_end`** (`whModel` on names), `wh_*_continue`, `wh_continue_label_check_{b2r,r2b,r2r}` (what each flavour does with the labels of given weights — replaces a statement that was false for two flavours), **`wh_chain_any_length`**, `wh_chain_eq_single_call`, `wh_result_carries_table_labels`; the other two implementations (own models `whNumpyModel`, `dictWhModel`): **`wh_implementations_alike`**, `wh_numpy_eq_openmp` (the same matrix), `dict_wh_eq_openmp` (at every pair of keys), `wh_numpy_continue` / `dict_wh_continue`, `*_two_calls`, `single_event_checks` + `dict_wh_raises` / `wh_numpy_table_check` (which exception).",
